@@ -7,6 +7,7 @@ from props.common import dump_of, wf_check
 class Check(PropCheck):
     pid = 'C17'
     tol = None
+    timeout = 30
     rule = ('n = 1..40 (quick) / 1..300 (thorough) x 3 shapes x 3 distributions x both length flags x seeds (seedable RNG hook); the '
             'random choices (which node is split at each step, the drawn lengths) are read back from the result and the model is re-run '
             'on them: it must accept them as an outcome of the real code and produce the identical arena, names included; '
